@@ -6,6 +6,10 @@ ROOT = os.path.dirname(os.path.dirname(os.path.abspath(__file__)))
 
 # id -> (technique, level text, level note, design ref)
 CLAIMED = {
+ "C11": ("path enumeration with events over the generator (must-pass-through setPerms), finite-assignment CFG walks for option guards and type tables (phi-choice tracking), provenance of metadata field bindings",
+         "Partial, structural: every created/accepted entry goes through setPerms; each metadata syscall is controlled by its own option and privilege condition for all 64 condition assignments; wire type ↔ Go mode ↔ system-call tables agree per file type; each field travels from its accessor to its sink; the owner-write touch-up is set and consumed consistently. Numeric fidelity is not decided.",
+         "Trusted: kernel/os.Root metadata calls. One genuine defect repaired by a fix: commit.",
+         "DESIGN.md §3 C11"),
  "C14": ("wire-sequence extraction by finite-assignment CFG walk of encoder and decoder (compared with each other, no oracle), emission-table ∘ parse-table composition over all option assignments, sibling agreement of the two TransferOpts literals, handshake sequence extraction",
          "Decides: for all 7×64 (file type × option subset) assignments the decoder consumes exactly what the encoder emits; every option the server consults is forwarded and arrives with the client's value (2^n assignments through the extracted emission and parse tables); both receiver configurations bind fields to the same accessors; handshake and filter-list reads/writes are mirror images. Desynchronisation freedom for options outside the accepted set is not decided.",
          "Trusted: the extraction vocabulary (atoms) — anything outside it makes the check undecided (fails closed). Two genuine defects repaired by fix: commits.",
